@@ -24,7 +24,7 @@ var (
 	reAbi40      = regexp.MustCompile(`(?m)^ *abi <abi/4\.0>,`)
 	reHeaderLine = regexp.MustCompile(`(?m)^profile\s+(\S+)([^\n]*)\{\s*$`)
 	reSubProfile = regexp.MustCompile(`(?m)^ +profile\s+(\S+)[^\n]*\{\s*$`)
-	reExecDef    = regexp.MustCompile(`(?m)^@\{exec_path\}\s*\+?=`)
+	reExecDef    = regexp.MustCompile(`(?m)^@\{exec_path\}\s*=`) // a definition: an append alone defines nothing
 )
 
 // layoutViolations is the independent scanner: it returns the clauses of the
